@@ -5,6 +5,9 @@ Line-protocol driver for C08 (simulated exchange).
 
 Ops
   `init <direct|async> <latency_ms> <fee> <n> <bal>*n <k> <base:quote>*k`   (`bal` is `x` or `total:free`)
+     the mode may carry a configuration shape `:<m|b|k>:<tok>.<tok>…` (exchange id the mock stands for, one
+     token per instrument: kind / quoting / settlement asset / contract size / spec, see `shapeTokOk`);
+     syntax checked (`bad-op`), content ignored: no path of the exchange reads it
   `open <t> <instr> <B|S> <M|L> <price> <qty> <strategy> <cid> [<ioc|fok|day|gtc|gtcp>]`
      (time in force: no path of `open_order` reads it and the response repeats it; when the op spells it out
      the harness prints the RESPONSE's time in force as `echo_tif` after the `echo` line, and so does the model)
@@ -56,18 +59,39 @@ def allSome {α : Type} : List (Option α) → Option (List α)
   | none :: _ => none
   | some a :: rest => (allSome rest).map (a :: ·)
 
+/-- One instrument token of a configuration SHAPE: `<s|p|f|o><q|b><digit><u|t|c>[+]` (kind, quoting,
+settlement asset, contract size, spec present). The exchange reads none of it (`open_order` uses
+`underlying` only): the model checks the syntax and ignores the content. -/
+def shapeTokOk (t : String) : Bool :=
+  match t.toList with
+  | [k, q, s, c] | [k, q, s, c, '+'] =>
+    (k == 's' || k == 'p' || k == 'f' || k == 'o') && (q == 'q' || q == 'b') && s.isDigit &&
+      (c == 'u' || c == 't' || c == 'c')
+  | _ => false
+
+/-- mode token `<direct|async>[:<m|b|k>:<tok>.<tok>…]`: `(async, number of shape tokens if a shape is given)` -/
+def parseMode (mode : String) : Option (Bool × Option Nat) :=
+  let m? (s : String) : Option Bool :=
+    if s == "async" then some true else if s == "direct" then some false else none
+  match mode.splitOn ":" with
+  | [m] => (m? m).map (·, none)
+  | [m, e, toks] =>
+    if !(e == "m" || e == "b" || e == "k") then none else
+    let ts := if toks == "" then [] else toks.splitOn "."
+    if ts.all shapeTokOk then (m? m).map (·, some ts.length) else none
+  | _ => none
+
 /-- `true` = async -/
 def parseInit : List String → Option (Bool × Cfg)
   | mode :: lat :: fee :: n :: rest =>
-    match (if mode == "async" then some true else if mode == "direct" then some false else none),
-          lat.toNat?, parseRat? fee, n.toNat? with
-    | some m, some lat, some fee, some n =>
+    match parseMode mode, lat.toNat?, parseRat? fee, n.toNat? with
+    | some (m, shape), some lat, some fee, some n =>
       if rest.length < n + 1 then none else
       match allSome ((rest.take n).map parseBal), (rest.drop n) with
       | some bals, k :: irest =>
         match k.toNat? with
         | some k =>
-          if irest.length ≠ k then none else
+          if irest.length ≠ k || (shape.isSome && shape ≠ some k) then none else
           match allSome (irest.map parseInstr) with
           | some is => some (m, { latency := lat, fee := fee, init := bals, instruments := is })
           | none => none
